@@ -47,8 +47,8 @@ claimed.update({
  "C06": dict(text="Deductive proof (a) that the partial evaluator decides a scope clause exactly when the request part is a concrete entity, with the verdict of the full semantics (equality, reachability incl. the set form - sound and complete -, type tests); (b) of the structure of partial() for 27 node kinds and of partialAnd/Or/IfThenElse: children are processed in source order, the first error other than 'depends on an unknown' decides, an operator is evaluated only when every child became a literal and then with exactly the evaluator of the full semantics (ToEval), an unknown result keeps the rebuilt node, otherwise the node is rebuilt; (c) per-operator lemmas that a literal placed in the residual is fully known when the operands, the policy literals and the entity store are, and that an operator's result on literal operands depends on the environment only through the entity store - hence is the same under every completion of the request.",
              note="Known finding (recorded, not repaired): a request part that is a composite value with an unknown nested inside is treated as a literal, so whole-value operators (contains, ==, ...) are evaluated while unknown - PartialPolicy drops a policy that a completion satisfies; the lemma for request variables is proved outside that region only. Not under contract: Has, extension calls, set and record literals inside partial (shape only / nothing), PartialPolicy's condition loop (keep/drop, error embedding, ignore semantics). The induction over the expression tree that combines the per-operator lemmas is applied outside the solver.",
              ref="DESIGN.md §6 C06"),
- "C15": dict(text="Slice: deductive proof that the validator accepts a comparison (<, <=, >, >=) only if both operand types are one and the same comparable type, which is the condition under which the evaluator's comparison cannot raise a type error (one genuine defect found and repaired here).",
-             note="One function contract (Validator.typeOfComparison over an opaque typeOfExpr). Validator soundness as a whole - every operator, capabilities, request environments, entity store conformance - is a type-soundness theorem outside function-level contracts; everything else in the validator is unverified surroundings. Assumed: Unwrap() []error of joined errors has no nil entries.",
+ "C15": dict(text="Slice: deductive proof that the validator accepts a comparison (<, <=, >, >=) only if both operand types are one and the same comparable type, which is the condition under which the evaluator's comparison cannot raise a type error (one genuine defect found and repaired here); and that the capability sets that license attribute accesses after `has` guards are sets with exact add / intersect / membership (a capability survives a join only if both sides established it).",
+             note="Four function contracts (Validator.typeOfComparison over an opaque typeOfExpr; capabilitySet.has/add/intersect). Validator soundness as a whole - every operator, capabilities, request environments, entity store conformance - is a type-soundness theorem outside function-level contracts; everything else in the validator is unverified surroundings. Assumed: Unwrap() []error of joined errors has no nil entries.",
              ref="DESIGN.md §6 C15"),
 })
 na = {}
